@@ -1,3 +1,4 @@
+import Pocket.Spec.AbsStore
 import Pocket.Lemmas.StoreRead
 /-
 C16 — reopen and rebuild preserve everything observable.
@@ -72,5 +73,50 @@ theorem rebuild_compacts (s : Store) :
 
 /-- the invariant (everything indexed is in the map, offsets sound) holds again after rebuild -/
 theorem rebuild_inv (s : Store) (hi : Inv s) : Inv (rebuild s) := Inv_rebuild s hi
+
+/-! ### the property read on the specification (`Spec/AbsStore.lean`) -/
+
+theorem mem_insertByIdE (z x : EventRec) (l : List EventRec) : z ∈ insertByIdE x l ↔ z = x ∨ z ∈ l := by
+  induction l with
+  | nil => simp [insertByIdE]
+  | cons y ys ih =>
+    simp only [insertByIdE]
+    split
+    · simp
+    · simp only [List.mem_cons, ih]
+      constructor
+      · rintro (h | h | h)
+        · exact Or.inr (Or.inl h)
+        · exact Or.inl h
+        · exact Or.inr (Or.inr h)
+      · rintro (h | h | h)
+        · exact Or.inr (Or.inl h)
+        · exact Or.inl h
+        · exact Or.inr (Or.inr h)
+
+theorem length_insertByIdE (x : EventRec) (l : List EventRec) : (insertByIdE x l).length = l.length + 1 := by
+  induction l with
+  | nil => rfl
+  | cons y ys ih =>
+    simp only [insertByIdE]
+    split
+    · simp
+    · simp [ih]
+
+/-- C16 read on the specification: rebuilding the abstract store keeps exactly the retrievable events (each as often as
+before) and both marker tables; what it changes is the log - the retrievable events alone, re-appended from offset 8 -/
+theorem spec_rebuild_preserves (a : Abs) :
+    (∀ x, x ∈ (absRebuild a).live ↔ x ∈ a.live) ∧ (absRebuild a).live.length = a.live.length ∧
+    (absRebuild a).delIds = a.delIds ∧ (absRebuild a).delAddrs = a.delAddrs := by
+  refine ⟨?_, ?_, rfl, rfl⟩
+  · intro x
+    show x ∈ a.live.foldr insertByIdE [] ↔ x ∈ a.live
+    induction a.live with
+    | nil => simp
+    | cons y ys ih => rw [List.foldr_cons, mem_insertByIdE, ih]; simp
+  · show (a.live.foldr insertByIdE []).length = a.live.length
+    induction a.live with
+    | nil => rfl
+    | cons y ys ih => rw [List.foldr_cons, length_insertByIdE, ih]; simp
 
 end Pocket.C16
